@@ -2,6 +2,7 @@ package sx
 
 import (
 	"fmt"
+	"os"
 	"go/constant"
 	"go/token"
 	"go/types"
@@ -11,6 +12,8 @@ import (
 
 	"golang.org/x/tools/go/ssa"
 )
+
+var traceOn = os.Getenv("GOSMT_TRACE") != ""
 
 type Fault struct{ Msg string }
 
@@ -28,7 +31,10 @@ type Obligation struct {
 	Cond    *Term // the claim; query is sat(PC ∧ ¬Cond); for reach: sat(PC)
 	Inputs  []*Term
 	Choices []Choice
+	Trace   []string
 	Folded  bool // decided by constant folding
+	negCond *Term
+	members []*Obligation
 	// results
 	Status  string // unsat | sat | unknown | error | folded-true | folded-false
 	Solver  string
@@ -78,6 +84,7 @@ type Config struct {
 	MaxDepth    int
 	FeasTimeout time.Duration
 	NoMerge     bool
+	MergeAll    bool
 	MaxPaths    int
 	AllocLimit  int64
 	MakeSplit   int // symbolic make lengths are split into 0..MakeSplit
@@ -104,6 +111,8 @@ type Exec struct {
 	}
 	assumptions map[string]bool
 	thorough    bool
+	cur         ssa.Instruction
+	lastTrace   time.Time
 	deadline    time.Time
 	notes       []string
 }
@@ -166,10 +175,7 @@ func (x *Exec) satPC(st *State, extra *Term) string {
 		panic(x.fault("printer: %v", p.Err))
 	}
 	if x.feas == nil || x.feas.dead {
-		kind := "z3"
-		if x.cfg.Dom == DomRUF {
-			kind = "z3-new"
-		}
+		kind := "z3-new"
 		s, err := StartSolver(kind)
 		if err != nil {
 			panic(x.fault("cannot start solver: %v", err))
@@ -179,6 +185,12 @@ func (x *Exec) satPC(st *State, extra *Term) string {
 	r := x.feas.Check(script, nil, x.cfg.FeasTimeout)
 	x.Stats.FeasQueries++
 	x.Stats.FeasSecs += r.Secs
+	if r.Secs > 1 && os.Getenv("GOSMT_TRACE") != "" {
+		fmt.Fprintf(os.Stderr, "slow feasibility query %.1fs (%s) at %s in %s, pc size %d nodes %d\n", r.Secs, r.Status, x.pos(x.cur), x.harness, len(pcs), TermSize(pcs))
+		if os.Getenv("GOSMT_TRACE") == "dump" {
+			os.WriteFile(fmt.Sprintf("/tmp/slow-%d.smt2", x.Stats.FeasQueries), []byte(script+"(check-sat)\n"), 0644)
+		}
+	}
 	if r.Status == "error" {
 		panic(x.fault("feasibility query error: %s", r.Detail))
 	}
@@ -190,7 +202,7 @@ func (x *Exec) satPC(st *State, extra *Term) string {
 
 func (x *Exec) addObl(st *State, kind, label, site string, cond *Term) *Obligation {
 	o := &Obligation{Harness: x.harness, Kind: kind, Label: label, Site: site, PC: st.pcList(), Cond: cond,
-		Inputs: st.inputs[:len(st.inputs):len(st.inputs)], Choices: st.choices[:len(st.choices):len(st.choices)]}
+		Inputs: st.inputs[:len(st.inputs):len(st.inputs)], Choices: st.choices[:len(st.choices):len(st.choices)], Trace: st.trace[:len(st.trace):len(st.trace)]}
 	if cond.IsTrue() && kind != "reach" {
 		o.Folded = true
 		o.Status = "folded-true"
@@ -372,10 +384,15 @@ func (x *Exec) runBlock(st *State, fr *Frame, b *ssa.BasicBlock, idx int, prev *
 		if !x.deadline.IsZero() && time.Now().After(x.deadline) {
 			panic(x.fault("harness time budget exceeded"))
 		}
+		if traceOn && time.Since(x.lastTrace) > 5*time.Second {
+			x.lastTrace = time.Now()
+			fmt.Fprintf(os.Stderr, "[%s] paths=%d branches=%d feasq=%d (%.0fs) merges=%d obls=%d instrs=%d at %s in %s depth=%d\n", x.harness, x.Stats.Paths, x.Stats.Branches, x.Stats.FeasQueries, x.Stats.FeasSecs, x.Stats.Merges, len(x.obls), x.Stats.Instrs, x.pos(b.Instrs[0]), fr.fn.Name(), fr.depth)
+		}
 		var term ssa.Instruction
 		for i := idx; i < len(b.Instrs); i++ {
 			in := b.Instrs[i]
 			x.Stats.Instrs++
+			x.cur = in
 			switch t := in.(type) {
 			case *ssa.If, *ssa.Jump, *ssa.Return, *ssa.Panic:
 				term = in
@@ -591,6 +608,14 @@ func (x *Exec) tryMerge(a Result, ca *Term, b Result, cb *Term) (Result, bool) {
 			return a, false
 		}
 	}
+	if len(sa.trace) != len(sb.trace) {
+		return a, false
+	}
+	for i := range sa.trace {
+		if sa.trace[i] != sb.trace[i] {
+			return a, false
+		}
+	}
 	for k, v := range sa.counters {
 		if sb.counters[k] != v {
 			return a, false
@@ -635,7 +660,7 @@ func (x *Exec) tryMerge(a Result, ca *Term, b Result, cb *Term) (Result, bool) {
 		if va == vb {
 			continue
 		}
-		v, ok := x.tryIte(cb, vb, va)
+		v, ok := x.tryIteS(cb, vb, va, !x.cfg.MergeAll)
 		if !ok {
 			return a, false
 		}
